@@ -674,6 +674,144 @@ Proof.
   { rewrite Sp. destruct (ck_domain c); destruct (ck_path c); cbn [bindp]; eexists; reflexivity. }
   exists c'. split; [exact Ec'|].
   pose proof (no_attribute_injection c c' Hc Hm' He Ec') as A.
-  destruct A as [A1 A2 A3 A4 A5 A6 A7 A8 A9 A10]. rewrite Ekv in A9, A10. cbn [fst snd] in A9, A10.
-  repeat split; try assumption. now rewrite A3, D4.
+  pose proof A as A'. destruct A as [A1 A2 A3 A4 A5 A6 A7 A8 A9 A10]. rewrite Ekv in A9, A10. cbn [fst snd] in A9, A10.
+  split; [exact A9|]. split; [exact A10|]. split; [now rewrite A3, D4|]. split; [exact A4|exact A'].
+Qed.
+
+(* ------------------------------------------------------------------ C06 (b): request cookies *)
+Definition jar_run (sets : list (bytes * bytes)) : kvs := fold_left (fun j kv => jarSetCookie j (fst kv) (snd kv)) sets [].
+
+Lemma setArg_assoc j k v : setArg j k v = assoc_set j k v.
+Proof. induction j as [|[k' v'] r IH]; cbn [setArg assoc_set]; [reflexivity|]. destruct (beq k k'); [reflexivity|]. now rewrite IH. Qed.
+Lemma jar_run_spec sets : jar_run sets = jar_of sets.
+Proof.
+  unfold jar_run, jar_of. generalize (@nil (bytes * bytes)). induction sets as [|[k v] r IH]; intros j; cbn [fold_left]; [reflexivity|].
+  rewrite <- IH. f_equal. unfold jarSetCookie, initHeaderValueBytes. cbn [fst snd]. now rewrite !clean_model, setArg_assoc.
+Qed.
+
+Definition jar_ns (j : kvs) : Prop := Forall (fun kv => ns (fst kv) /\ ns (snd kv)) j.
+Lemma assoc_set_ns j k v : jar_ns j -> ns k -> ns v -> jar_ns (assoc_set j k v).
+Proof.
+  intros Hj Hk Hv. induction Hj as [|[k' v'] r [A B] Hr IH]; cbn [assoc_set]; [constructor; [split; assumption|constructor]|].
+  destruct (beq k k'); constructor; try assumption; split; assumption.
+Qed.
+Lemma jar_of_ns sets : jar_ns (jar_of sets).
+Proof.
+  unfold jar_of. assert (G : forall sets j, jar_ns j -> jar_ns (fold_left (fun j kv => assoc_set j (clean (fst kv)) (clean (snd kv))) sets j)).
+  { clear. induction sets as [|kv r IH]; intros j Hj; [exact Hj|]. cbn [fold_left]. apply IH. apply assoc_set_ns; [exact Hj| |]; apply clean_ns. }
+  apply G. constructor.
+Qed.
+Lemma assoc_set_keys j k v : NoDup (map fst j) -> NoDup (map fst (assoc_set j k v)) /\
+  (forall x, In x (map fst (assoc_set j k v)) -> x = k \/ In x (map fst j)) /\ (length (assoc_set j k v) <= S (length j))%nat.
+Proof.
+  induction j as [|[k' v'] r IH]; intros Hn; cbn [assoc_set].
+  - split; [repeat constructor; intros []|]. split; [intros x [<-|[]]; now left|cbn; lia].
+  - destruct (beq k k') eqn:E.
+    + split; [exact Hn|]. split; [intros x Hx; now right|cbn; lia].
+    + inversion Hn as [|? ? Hni Hnr]; subst. destruct (IH Hnr) as (I1 & I2 & I3). cbn [map fst length]. split; [|split].
+      * constructor; [|exact I1]. intros Hin. apply I2 in Hin as [->|Hin]; [|contradiction]. now rewrite beq_refl in E.
+      * intros x [<-|Hx]; [right; now left|]. apply I2 in Hx as [->|Hx]; [now left|right; now right].
+      * lia.
+Qed.
+Lemma jar_of_keys sets : NoDup (map fst (jar_of sets)) /\ (length (jar_of sets) <= length sets)%nat.
+Proof.
+  unfold jar_of. assert (G : forall sets j, NoDup (map fst j) ->
+     NoDup (map fst (fold_left (fun j kv => assoc_set j (clean (fst kv)) (clean (snd kv))) sets j)) /\
+     (length (fold_left (fun j kv => assoc_set j (clean (fst kv)) (clean (snd kv))) sets j) <= length j + length sets)%nat).
+  { clear. induction sets as [|kv r IH]; intros j Hj; cbn [fold_left]; [split; [exact Hj|cbn; lia]|].
+    destruct (assoc_set_keys j (clean (fst kv)) (clean (snd kv)) Hj) as (A & _ & C). destruct (IH _ A) as [I1 I2]. split; [exact I1|]. cbn [length]. lia. }
+  destruct (G sets [] (NoDup_nil _)) as [A B]. split; [exact A|cbn in B; lia].
+Qed.
+
+(* the header value is the pairs joined by "; " *)
+Lemma pair_text_model kv : pair_text kv = match fst kv with [] => [] | _ => fst kv ++ [61] end ++ snd kv.
+Proof. unfold pair_text. destruct (fst kv); [reflexivity|]. now rewrite <- app_assoc. Qed.
+Lemma appendRequestCookieBytes_joined j : forall dst, appendRequestCookieBytes dst j = dst ++ joined (map pair_text j).
+Proof.
+  induction j as [|[k v] r IH]; intros dst; cbn [appendRequestCookieBytes map joined]; [now rewrite app_nil_r|].
+  assert (E : forall d, match k with [] => d | _ :: _ => d ++ k ++ [61] end ++ v = d ++ pair_text (k, v)).
+  { intros d. rewrite pair_text_model. cbn [fst snd]. destruct k; [reflexivity|]. now rewrite <- !app_assoc. }
+  destruct r as [|kv2 r2].
+  - cbn [map sj concat]. rewrite app_nil_r. apply E.
+  - rewrite IH. rewrite E. cbn [map]. rewrite sj_cons. now rewrite <- !app_assoc.
+Qed.
+
+Definition keep (p : bytes * bytes) : bool :=
+  (match fst p, snd p with [], [] => false | _, _ => true end) && validCookieValue (snd p).
+Definition keepf (s : bytes) : list (bytes * bytes) := if keep (kv_of s) then [kv_of s] else [].
+
+Lemma prc_loop_joined segs : forall fuel acc, Forall nosemi segs -> (length (joined segs) <= fuel)%nat ->
+  prc_loop fuel (joined segs) acc = Some (acc ++ flat_map keepf segs).
+Proof.
+  induction segs as [|s r IH]; intros fuel acc Hs Hf.
+  - cbn [joined flat_map]. rewrite app_nil_r. destruct fuel; reflexivity.
+  - inversion Hs; subst.
+    destruct (joined (s :: r)) as [|j0 jr] eqn:Ej.
+    + (* everything empty: s = [] and r = [] *)
+      assert (s = [] /\ r = []) as [-> ->].
+      { cbn [joined] in Ej. destruct s; [|discriminate]. destruct r; [split; reflexivity|discriminate]. }
+      cbn. rewrite app_nil_r. destruct fuel; reflexivity.
+    + destruct fuel as [|f]; [cbn in Hf; lia|]. rewrite <- Ej in *. cbn [prc_loop]. unfold next.
+      rewrite scan_pair_joined; [|assumption|rewrite Ej; discriminate].
+      cbn [flat_map]. unfold keepf at 1. unfold keep. destruct (kv_of s) as [k v]. cbn [fst snd].
+      rewrite IH; [|assumption|destruct (joined_length s r) as [Hl|Hl]; [lia|subst r; cbn; lia]].
+      destruct ((match k, v with [], [] => false | _, _ => true end) && validCookieValue v); [now rewrite <- app_assoc|reflexivity].
+Qed.
+
+Lemma seen_pair_kv_of kv : seen_pair kv = kv_of (pair_text kv).
+Proof. reflexivity. Qed.
+
+Theorem request_cookies_exact sets :
+  parseRequestCookies [] (appendRequestCookieBytes [] (jar_run sets)) =
+  Some (flat_map (fun kv => if keep (seen_pair kv) then [seen_pair kv] else []) (jar_of sets)).
+Proof.
+  rewrite jar_run_spec, appendRequestCookieBytes_joined. cbn [app]. unfold parseRequestCookies.
+  rewrite prc_loop_joined; [|  |lia].
+  - cbn [app]. f_equal. rewrite flat_map_concat_map, map_map, <- flat_map_concat_map. reflexivity.
+  - apply Forall_forall. intros s Hs. apply in_map_iff in Hs as ([k v] & <- & Hkv).
+    pose proof (jar_of_ns sets) as J. unfold jar_ns in J. rewrite Forall_forall in J. destruct (J _ Hkv) as [A B]. cbn [fst snd] in A, B.
+    rewrite pair_text_model. cbn [fst snd]. apply nosemi_app; [|exact (ns_nosemi _ B)].
+    destruct k; [intros ? []|]. apply nosemi_app; [exact (ns_nosemi _ A)|]. intros x [<-|[]]. discriminate.
+Qed.
+
+(* consequences: never more cookies than distinct keys set, every cookie seen stems from one that was set *)
+Lemma flat_map_opt_length {A B} (f : A -> list B) l : (forall x, length (f x) <= 1)%nat -> (length (flat_map f l) <= length l)%nat.
+Proof. intros H. induction l as [|a l IH]; [cbn; lia|]. cbn [flat_map]. rewrite app_length. specialize (H a). cbn [length]. lia. Qed.
+
+Theorem request_no_extra_cookie sets seen :
+  parseRequestCookies [] (appendRequestCookieBytes [] (jar_run sets)) = Some seen ->
+  (length seen <= length (jar_of sets))%nat /\ (length (jar_of sets) <= length sets)%nat /\ NoDup (map fst (jar_of sets)) /\
+  (forall p, In p seen -> exists kv, In kv (jar_of sets) /\ p = seen_pair kv).
+Proof.
+  rewrite request_cookies_exact. intros E. inversion E; subst; clear E.
+  destruct (jar_of_keys sets) as [N L]. split; [|split; [exact L|split; [exact N|]]].
+  - apply flat_map_opt_length. intros x. destruct (keep (seen_pair x)); cbn; lia.
+  - intros p Hp. apply in_flat_map in Hp as (kv & Hkv & Hp). exists kv. split; [exact Hkv|]. destruct (keep (seen_pair kv)); [|destruct Hp]. destruct Hp as [<-|[]]. reflexivity.
+Qed.
+
+Theorem request_roundtrip_octets sets :
+  Forall (fun kv => cookie_name (fst kv) = true /\ octets (snd kv) = true) sets ->
+  parseRequestCookies [] (appendRequestCookieBytes [] (jar_run sets)) = Some (jar_of sets) /\
+  jar_of sets = fold_left (fun j kv => assoc_set j (fst kv) (snd kv)) sets [].
+Proof.
+  intros H. split.
+  - rewrite request_cookies_exact. f_equal.
+    assert (J : Forall (fun kv => cookie_name (fst kv) = true /\ octets (snd kv) = true) (jar_of sets)).
+    { unfold jar_of. assert (G : forall sets j, Forall (fun kv => cookie_name (fst kv) = true /\ octets (snd kv) = true) sets ->
+          Forall (fun kv => cookie_name (fst kv) = true /\ octets (snd kv) = true) j ->
+          Forall (fun kv => cookie_name (fst kv) = true /\ octets (snd kv) = true) (fold_left (fun j kv => assoc_set j (clean (fst kv)) (clean (snd kv))) sets j)).
+      { clear. induction sets as [|[k v] r IH]; intros j Hs Hj; [exact Hj|]. inversion Hs as [|? ? [A B] Hr]; subst. cbn [fst snd] in A, B.
+        cbn [fold_left fst snd]. apply IH; [exact Hr|].
+        rewrite (clean_id k) by (now destruct (name_facts _ A)). rewrite (clean_id v) by (now destruct (octet_facts _ B)).
+        clear - Hj A B. induction Hj as [|[k' v'] j [A' B'] Hj IH]; cbn [assoc_set]; [constructor; [split; assumption|constructor]|].
+        destruct (beq k k'); constructor; try assumption; split; assumption. }
+      apply G; [exact H|constructor]. }
+    induction J as [|[k v] j [A B] Hj IH]; [reflexivity|]. cbn [flat_map fst snd] in *. rewrite IH.
+    destruct (name_facts _ A) as (K1 & K2 & K3 & K4). destruct (octet_facts _ B) as (V1 & V2 & V3 & V4).
+    assert (E : seen_pair (k, v) = (k, v)).
+    { rewrite seen_pair_kv_of. unfold pair_text. cbn [fst snd]. destruct k as [|k0 kr] eqn:Ek; [congruence|]. rewrite <- Ek in *.
+      rewrite kv_of_attr by assumption. now rewrite trimCookieArg_tight. }
+    rewrite E. unfold keep. cbn [fst snd]. rewrite V3. destruct k; [congruence|]. reflexivity.
+  - unfold jar_of. generalize (@nil (bytes * bytes)). induction H as [|[k v] r [A B] Hr IH]; intros j; [reflexivity|].
+    cbn [fold_left fst snd] in *. rewrite (clean_id k) by (now destruct (name_facts _ A)). rewrite (clean_id v) by (now destruct (octet_facts _ B)). apply IH.
 Qed.
